@@ -249,3 +249,154 @@ package tchannel
 //@             be16(old(w.remaining), 2) == uint16(len(m.initParams)) && off(w.remaining) >= off(old(w.remaining)) + 4
 //@   loop 0 invariant typed.Suffix(w.remaining, old(w.remaining))
 //@   property C06 C13
+
+// ===========================================================================
+// logger.go -- loggers never return nil loggers (T4 for user loggers)
+// ===========================================================================
+
+//@ iface Logger.WithFields(fields []LogField) (l Logger)
+//@   modifies nothing
+//@   ensures l != nil
+//@ iface Logger.Enabled(level LogLevel) (ok bool)
+//@   modifies nothing
+//@ iface Logger.Info(msg string)
+//@   modifies nothing
+
+// ===========================================================================
+// retry.go / errors.go -- retry policy and attempt budget (C17, C20)
+// ===========================================================================
+
+//@ func GetSystemErrorCode(err error) (code SystemErrCode)
+//@   pure
+//@   ensures err == nil ==> code == ErrCodeInvalid
+//@   ensures err != nil && istype(err, SystemError) ==> code == err.(SystemError).code
+//@   ensures err != nil && !istype(err, SystemError) ==> code == ErrCodeUnexpected
+//@   property C17 C20
+
+//@ func isNetError(err error) (ok bool)
+//@   pure
+//@   modifies nothing
+//@   property C17
+
+//@ func getErrCode(err error) (code SystemErrCode)
+//@   pure
+//@   ensures isNetError(err) ==> code == ErrCodeNetwork
+//@   ensures !isNetError(err) ==> code == GetSystemErrorCode(err)
+//@   property C17
+
+// The policy table, written from the property statement.
+//@ func (r RetryOn) CanRetry(err error) (ok bool)
+//@   pure
+//@   label never
+//@   ensures r == RetryNever ==> !ok
+//@   label busy-declined
+//@   ensures r != RetryNever && (getErrCode(err) == ErrCodeBusy || getErrCode(err) == ErrCodeDeclined) ==> ok
+//@   label bad-request
+//@   ensures getErrCode(err) == ErrCodeBadRequest ==> !ok
+//@   label network
+//@   ensures getErrCode(err) == ErrCodeNetwork ==> (ok <==> (r == RetryConnectionError || r == RetryDefault || r == RetryIdempotent))
+//@   label unexpected
+//@   ensures getErrCode(err) == ErrCodeUnexpected ==> (ok <==> (r == RetryUnexpected || r == RetryIdempotent))
+//@   label everything-else
+//@   ensures getErrCode(err) != ErrCodeBusy && getErrCode(err) != ErrCodeDeclined && getErrCode(err) != ErrCodeBadRequest &&
+//@           getErrCode(err) != ErrCodeNetwork && getErrCode(err) != ErrCodeUnexpected ==> (ok <==> r == RetryIdempotent)
+//@   property C17
+
+// optsOf: the retry options a context carries (a function of the context only).
+//@ ghost func optsOf(ctx context.Context) *RetryOptions
+//@ func getRetryOptions(ctx context.Context) (opts *RetryOptions)
+//@   requires ctx != nil
+//@   modifies optsOf(ctx).MaxAttempts
+//@   defines opts == optsOf(ctx)
+//@   ensures opts != nil
+//@   label default-five
+//@   ensures old(opts.MaxAttempts) == 0 ==> opts.MaxAttempts == old(defaultRetryOptions.MaxAttempts)
+//@   ensures old(opts.MaxAttempts) != 0 ==> opts.MaxAttempts == old(opts.MaxAttempts)
+//@   ensures opts.RetryOn == old(opts.RetryOn) && opts.TimeoutPerAttempt == old(opts.TimeoutPerAttempt)
+//@   property C17
+
+//@ func (rs *RequestState) HasRetries(err error) (ok bool)
+//@   nilable rs
+//@   requires rs != nil ==> rs.retryOpts != nil
+//@   ensures rs == nil ==> !ok
+//@   ensures rs != nil ==> (ok <==> (rs.Attempt < rs.retryOpts.MaxAttempts && rs.retryOpts.RetryOn.CanRetry(err)))
+//@   property C17
+
+//@ func (rs *RequestState) PrevSelectedPeers() (m map[string]struct{})
+//@   nilable rs
+//@   ensures rs == nil ==> m == nil
+//@   ensures rs != nil ==> m == rs.SelectedPeers
+//@   property C17 C15
+
+// Both the host:port and the host are recorded; nothing already recorded is removed.
+//@ func (rs *RequestState) AddSelectedPeer(hostPort string)
+//@   nilable rs
+//@   modifies rs.SelectedPeers
+//@   ensures rs != nil ==> rs.SelectedPeers != nil && has(rs.SelectedPeers, hostPort) && has(rs.SelectedPeers, getHost(hostPort))
+//@   ensures rs != nil && old(rs.SelectedPeers) != nil ==> rs.SelectedPeers == old(rs.SelectedPeers)
+//@   ensures rs != nil && old(rs.SelectedPeers) != nil ==> forall k string :: old(has(rs.SelectedPeers, k)) ==> has(rs.SelectedPeers, k)
+//@   property C17 C15
+
+//@ func (rs *RequestState) RetryCount() (n int)
+//@   nilable rs
+//@   ensures rs == nil ==> n == 0
+//@   ensures rs != nil && rs.Attempt > -9223372036854775808 ==> n == rs.Attempt - 1
+//@   property C17
+
+// getHost: the prefix before the first ':' (the whole string if there is none).
+//@ func getHost(hostPort string) (host string)
+//@   ensures len(host) <= len(hostPort)
+//@   ensures host == hostPort[:len(host)]
+//@   ensures len(host) < len(hostPort) ==> hostPort[len(host)] == ':'
+//@   ensures forall j int :: 0 <= j && j < len(host) ==> hostPort[j] != ':'
+//@   loop 0 invariant forall j int :: 0 <= j && j < i ==> hostPort[j] != ':'
+//@   loop 0 invariant 0 <= i && i <= len(hostPort)
+//@   property C15 C17
+
+// Ghost accounting for the user callback: ncalls counts invocations, lasterr
+// is the error of the latest one. Assumed for user code (T4): the callback
+// changes neither the retry options nor the attempt counter.
+//@ ghostfield ncalls
+//@ ghostfield lasterrtag
+//@ ghostfield lasterrval
+//@ functype RetriableFunc(ctx context.Context, rs *RequestState) (err error)
+//@   label attempt-number-visible
+//@   requires rs.Attempt == ncalls(self) + 1
+//@   modifies ncalls(self), lasterrtag(self), lasterrval(self), rs.SelectedPeers
+//@   ensures ncalls(self) == old(ncalls(self)) + 1
+//@   ensures lasterrtag(self) == tagof(err) && lasterrval(self) == valof(err)
+
+//@ funcfield channelConnectionCommon.timeNow() (t time.Time)
+//@   modifies nothing
+
+//@ func (ch *Channel) getRequestState(retryOpts *RetryOptions) (rs *RequestState)
+//@   nilable retryOpts
+//@   requires ch.timeNow != nil
+//@   modifies rs.*
+//@   ensures rs != nil && rs.Attempt == 0 && rs.retryOpts == retryOpts && rs.SelectedPeers == nil
+//@   property C17
+
+// MaxAttempts (after the default of 5 was substituted for 0) bounds the number
+// of invocations; the loop stops at the first nil or non-retryable error and
+// the error returned is the one the last invocation produced.
+//@ func (ch *Channel) RunWithRetry(runCtx context.Context, f RetriableFunc) (err error)
+//@   requires f != nil && ncalls(f) == 0 && runCtx != nil && ch.log != nil && ch.timeNow != nil
+//@   requires defaultRetryOptions.MaxAttempts == 5
+//@   modifies all
+//@   label at-most-MaxAttempts
+//@   ensures ncalls(f) <= optsOf(runCtx).MaxAttempts || ncalls(f) == 0
+//@   label default-is-five
+//@   ensures old(optsOf(runCtx).MaxAttempts) == 0 ==> ncalls(f) <= 5
+//@   label returns-last-error
+//@   ensures ncalls(f) > 0 ==> tagof(err) == lasterrtag(f) && valof(err) == lasterrval(f)
+//@   label stops-only-when-allowed
+//@   ensures err != nil && ncalls(f) > 0 && ncalls(f) < optsOf(runCtx).MaxAttempts ==> !optsOf(runCtx).RetryOn.CanRetry(err)
+//@   label runs-while-retryable
+//@   ensures optsOf(runCtx).MaxAttempts > 0 ==> ncalls(f) > 0
+//@   loop 0 invariant ncalls(f) == i && rs.Attempt == i && 0 <= i && opts == optsOf(runCtx) && rs != nil
+//@   loop 0 invariant i > 0 ==> tagof(err) == lasterrtag(f) && valof(err) == lasterrval(f) && err != nil && opts.RetryOn.CanRetry(err)
+//@   loop 0 invariant i <= opts.MaxAttempts || i == 0
+//@   loop 0 invariant old(optsOf(runCtx).MaxAttempts) == 0 ==> opts.MaxAttempts == 5
+//@   loop 0 invariant old(optsOf(runCtx).MaxAttempts) != 0 ==> opts.MaxAttempts == old(optsOf(runCtx).MaxAttempts)
+//@   loop 0 invariant opts.RetryOn == old(optsOf(runCtx).RetryOn)
+//@   property C17
